@@ -620,13 +620,14 @@ spec fn decode_spec_v1(p: Seq<u8>, sh: u16) -> Option<ThetaImg> {
         dec_entries(p, 21, n, theta, sh, true, n == 0 && theta == MAX_THETA_SPEC)
     }
 }
-// whole images, serial versions 1-3 (version 4 is the compressed form: bit_pack.rs is only under contract, see deserialize_v4)
+// whole images, serial versions 1-4 (decode_spec_v4 is defined after the version-4 encoder below)
 #[verifier::opaque]
 spec fn decode_spec(img: Seq<u8>, sh: u16) -> Option<ThetaImg> {
     if img.len() < 3 || img[2] != 3 || !(1 <= img[0] <= 3) { None }
     else if img[1] == 1 { decode_spec_v1(img.skip(3), sh) }
     else if img[1] == 2 { decode_spec_v2(img.skip(3), img[0], sh) }
     else if img[1] == 3 { decode_spec_v3(img.skip(3), img[0], sh) }
+    else if img[1] == 4 { decode_spec_v4(img.skip(3), img[0], sh) }
     else { None }
 }
 
@@ -646,6 +647,65 @@ spec fn is_v4_image_of(b: Seq<u8>, x: ThetaImg) -> bool {
       && b.len() >= enc_v4_header(x, b[3], b[4]).len() && b.take(enc_v4_header(x, b[3], b[4]).len() as int) == enc_v4_header(x, b[3], b[4])
 }
 
+// serial version 4, the payload (Appendix A: "then numEntries in numEntriesBytes LE bytes, then deltas packed MSB-first, blocks of 8 values in
+// entryBits bytes, tail bit-packed"): delta i = entry i - entry i-1 (entry -1 = 0); every full group of 8 deltas is one block of entryBits bytes,
+// the remaining 1..=7 deltas one zero-padded run of ceil(rem*entryBits/8) bytes
+spec fn delta_at(e: Seq<u64>, i: int) -> u64 { if i == 0 { e[0] } else { (e[i] - e[i - 1]) as u64 } }
+spec fn deltas_of(e: Seq<u64>) -> Seq<u64> { Seq::new(e.len(), |i: int| delta_at(e, i)) }
+spec fn enc_blocks(d: Seq<u64>, w: int, nb: nat) -> Seq<u8> decreases nb {
+    if nb == 0 { Seq::empty() } else { enc_blocks(d, w, (nb - 1) as nat) + packed(d.subrange(8 * (nb - 1), 8 * (nb as int)), w) }
+}
+spec fn enc_v4_payload(d: Seq<u64>, w: int) -> Seq<u8> {
+    let nb = d.len() / 8;
+    enc_blocks(d, w, nb) + (if d.len() % 8 != 0 { packed(d.skip(8 * (nb as int)), w) } else { Seq::<u8>::empty() })
+}
+spec fn enc_theta_v4(x: ThetaImg, entry_bits: u8, neb: u8) -> Seq<u8> { enc_v4_header(x, entry_bits, neb) + enc_v4_payload(deltas_of(x.entries), entry_bits as int) }
+// b is A serial-version-4 image of x: any entryBits wide enough for every delta, any numEntriesBytes wide enough for the count
+spec fn is_v4_image(b: Seq<u8>, x: ThetaImg) -> bool {
+    b.len() >= 5 && 1 <= b[3] <= 63 && count_fits(x.entries.len() as u32, b[4]) && fits(deltas_of(x.entries), b[3] as int) && b == enc_theta_v4(x, b[3], b[4])
+}
+
+// the spec DECODER for serial version 4, on p = image.skip(3): 0 entryBits | 1 numEntriesBytes | 2 flags | 3-4 seedHash | 5-12 theta iff preLongs = 2 | count | payload
+spec fn le_count_val(p: Seq<u8>, off: int, k: nat) -> usize decreases k { if k == 0 { 0 } else { le_count_val(p, off, (k - 1) as nat) | ((p[off + k - 1] as usize) << ((8 * (k - 1)) as usize)) } }
+spec fn psum(d: Seq<u64>, k: nat) -> int decreases k { if k == 0 { 0 } else { psum(d, (k - 1) as nat) + d[k - 1] } }
+spec fn undelta(d: Seq<u64>) -> Seq<u64> { Seq::new(d.len(), |i: int| psum(d, (i + 1) as nat) as u64) }
+spec fn v4_payload_len(n: int, w: int) -> int { w * (n / 8) + packed_len(n % 8, w) }
+spec fn dec_v4_delta(q: Seq<u8>, w: int, n: int, i: int) -> u64 {
+    if i < 8 * (n / 8) { unpacked(q.subrange(w * (i / 8), w * (i / 8) + w), w, 8)[i % 8] }
+    else { unpacked(q.subrange(w * (n / 8), v4_payload_len(n, w)), w, (n % 8) as nat)[i - 8 * (n / 8)] }
+}
+spec fn dec_v4_deltas(q: Seq<u8>, w: int, n: nat) -> Seq<u64> { Seq::new(n, |i: int| dec_v4_delta(q, w, n as int, i)) }
+#[verifier::opaque]
+spec fn decode_spec_v4(p: Seq<u8>, pre_longs: u8, sh: u16) -> Option<ThetaImg> {
+    if p.len() < 5 { None } else {
+        let w = p[0]; let neb = p[1]; let flags = p[2]; let seed_hash = le16_val(p.subrange(3, 5));
+        let off: int = if pre_longs == 2 { 13 } else { 5 };
+        // never written for an empty sketch; entryBits in 1..=63; the count has at most 4 bytes; preLongs 1 (exact) or 2 (estimating)
+        if flag_empty(flags) || seed_hash != sh || !(1 <= w <= 63) || neb > 4 || !(1 <= pre_longs <= 2) || p.len() < off + neb { None } else {
+            let theta = if pre_longs == 2 { le64_val(p.subrange(5, 13)) } else { MAX_THETA_SPEC };
+            let n = le_count_val(p, off, neb as nat) as nat;
+            let q = p.skip(off + neb);
+            if q.len() < v4_payload_len(n as int, w as int) { None } else {
+                let d = dec_v4_deltas(q, w as int, n);
+                if psum(d, n) > u64::MAX || !all_valid(undelta(d), theta) { None }
+                else { Some(ThetaImg { entries: undelta(d), theta, seed_hash, ordered: flag_ordered(flags), empty: false }) }
+            }
+        }
+    }
+}
+
+// what a parser may rely on when the image is a valid version-4 image (decode_spec_v4 is opaque elsewhere: it is large)
+spec fn v4_off(pre_longs: u8) -> int { if pre_longs == 2 { 13 } else { 5 } }
+proof fn lemma_dec_v4_some(p: Seq<u8>, pre_longs: u8, sh: u16)
+  ensures decode_spec_v4(p, pre_longs, sh) matches Some(x) ==> ({
+      let off = v4_off(pre_longs); let w = p[0] as int; let n = le_count_val(p, off, p[1] as nat) as nat; let q = p.skip(off + p[1]); let d = dec_v4_deltas(q, w, n);
+      &&& p.len() >= 5 && !flag_empty(p[2]) && le16_val(p.subrange(3, 5)) == sh && 1 <= p[0] <= 63 && p[1] <= 4 && 1 <= pre_longs <= 2
+      &&& p.len() >= off + p[1] && q.len() >= v4_payload_len(n as int, w) && psum(d, n) <= u64::MAX
+      &&& x.theta == (if pre_longs == 2 { le64_val(p.subrange(5, 13)) } else { MAX_THETA_SPEC }) && all_valid(undelta(d), x.theta)
+      &&& x.entries == undelta(d) && x.seed_hash == sh && x.ordered == flag_ordered(p[2]) && !x.empty
+  })
+{ reveal(decode_spec_v4); }
+
 // well-formed abstract states (what ThetaSketch::compact produces, and what every other operation relies on)
 spec fn wf_img(x: ThetaImg) -> bool {
     &&& all_valid(x.entries, x.theta)
@@ -654,6 +714,24 @@ spec fn wf_img(x: ThetaImg) -> bool {
     &&& (x.ordered ==> sorted_strict(x.entries))
 }
 
+// x < 2^63 has no bit at or above position 64 - leading_zeros(x)
+proof fn lemma_lz_fits(x: u64)
+  requires x < 0x8000_0000_0000_0000
+  ensures 1 <= vstd::std_specs::bits::u64_leading_zeros(x) <= 64, x >> ((64 - vstd::std_specs::bits::u64_leading_zeros(x)) as u64) == 0
+{
+    vstd::std_specs::bits::axiom_u64_leading_zeros(x);
+    assert(x < 0x8000_0000_0000_0000u64 ==> (x >> 63u64) & 1u64 == 0u64) by (bit_vector);
+    let r = (64 - vstd::std_specs::bits::u64_leading_zeros(x)) as u64;
+    let y = x >> r;
+    if y != 0 {
+        vstd::std_specs::bits::axiom_u64_leading_zeros(y);
+        let t = (63 - vstd::std_specs::bits::u64_leading_zeros(y)) as u64;
+        assert((y >> t) & 1u64 == 1u64);
+        assert(r + t < 64 && (x >> ((r + t) as u64)) & 1u64 == 1u64) by (bit_vector) requires y == x >> r, (y >> t) & 1u64 == 1u64, r <= 63, t <= 63;
+        let j = (r + t) as u64;
+        assert((x >> j) & 1u64 == 0u64);
+    }
+}
 proof fn lemma_mul_le(a: int, b: int, c: int) requires 0 <= a <= b, 0 <= c ensures a * c <= b * c { assert(a * c <= b * c) by (nonlinear_arith) requires 0 <= a <= b, 0 <= c; }
 proof fn lemma_sorted_small(e: Seq<u64>) requires e.len() <= 1 ensures sorted_strict(e) { reveal(sorted_strict); }
 // `flags |= BIT` on the small values a flag byte goes through, as arithmetic (so the order of the |= statements does not matter)
@@ -846,7 +924,8 @@ self . ordered && ! self . entries . is_empty ( ) && ( self . entries . len ( ) 
 
     #[verifier::spinoff_prover]   // fresh z3 per function: the shared prover slows down badly after the expected failures
     fn serialize_v4 ( & self ) -> ( r : Vec < u8 > ) requires self . wf ( ) , v4_suitable ( self . img ( ) ) , self . entries @ . len ( ) <= 0x0fff_ffff ensures
-/*@C12.theta.v4_header*/ is_v4_image_of ( r @ , self . img ( ) ) {
+/*@C12.theta.v4_header*/ is_v4_image_of ( r @ , self . img ( ) ) ,
+/*@C12.theta.v4_payload*/ is_v4_image ( r @ , self . img ( ) ) , {
 let pre_longs = self . preamble_longs ( true ) ;
 let entry_bits = Self :: compute_entry_bits ( & self . entries ) ;
 let num_entries_bytes = Self :: num_entries_bytes ( self . entries . len ( ) ) ;
@@ -892,20 +971,24 @@ assert ( le_count_bytes ( n0 , vx_u1 as nat + 1 ) =~= le_count_bytes ( n0 , vx_u
 n >>= 8 ;
 }
 let ghost hdr = bytes @ ;
+let ghost d = deltas_of ( self . entries @ ) ;
+let ghost w = entry_bits as int ;
 let mut previous = 0u64 ;
 let mut i = 0usize ;
 let mut block = vx_vec_u8 ( entry_bits as usize ) ;
 proof {
 reveal ( sorted_strict ) ;
+assert ( hdr + enc_blocks ( d , w , 0 ) =~= hdr ) ;
 }
-while i + BLOCK_WIDTH <= self . entries . len ( ) invariant i <= self . entries @ . len ( ) , self . entries @ . len ( ) <= 0x0fff_ffff , block @ . len ( ) == entry_bits , 1 <= entry_bits <= 63 || self . entries @ . len ( ) == 0 , previous == ( if i == 0 {
+while i + BLOCK_WIDTH <= self . entries . len ( ) invariant i <= self . entries @ . len ( ) , i % 8 == 0 , d == deltas_of ( self . entries @ ) , w == entry_bits as int ,
+/*@C12.theta.v4_payload*/ bytes @ == hdr + enc_blocks ( d , w , ( i / 8 ) as nat ) , self . entries @ . len ( ) <= 0x0fff_ffff , block @ . len ( ) == entry_bits , 1 <= entry_bits <= 63 || self . entries @ . len ( ) == 0 , previous == ( if i == 0 {
 0u64 }
 else {
 self . entries @ [ i - 1 ] }
 ) , sorted_strict ( self . entries @ ) , bytes @ . len ( ) >= hdr . len ( ) , bytes @ . take ( hdr . len ( ) as int ) == hdr , decreases self . entries @ . len ( ) - i {
 let mut deltas = [ 0u64 ;
 BLOCK_WIDTH ] ;
-for j in 0 .. BLOCK_WIDTH invariant i + BLOCK_WIDTH <= self . entries @ . len ( ) , self . entries @ . len ( ) <= 0x0fff_ffff , deltas @ . len ( ) == 8 , sorted_strict ( self . entries @ ) , previous == ( if i + j == 0 {
+for j in 0 .. BLOCK_WIDTH invariant i + BLOCK_WIDTH <= self . entries @ . len ( ) , self . entries @ . len ( ) <= 0x0fff_ffff , deltas @ . len ( ) == 8 , sorted_strict ( self . entries @ ) , d == deltas_of ( self . entries @ ) , forall | t : int | 0 <= t < j ==> deltas @ [ t ] == # [ trigger ] d [ i + t ] , previous == ( if i + j == 0 {
 0u64 }
 else {
 self . entries @ [ i + j - 1 ] }
@@ -923,6 +1006,14 @@ let ghost before = bytes @ ;
 bytes . write ( & block ) ;
 proof {
 assert ( ( before + block @ ) . take ( hdr . len ( ) as int ) =~= before . take ( hdr . len ( ) as int ) ) ;
+assert ( 8 * ( i / 8 ) == i ) ;
+assert forall | t : int | 0 <= t < 8 implies deltas @ [ t ] == d . subrange ( i as int , i + 8 ) [ t ] by {
+assert ( deltas @ [ t ] == d [ i + t ] ) ;
+}
+assert ( deltas @ =~= d . subrange ( 8 * ( i / 8 ) as int , 8 * ( i / 8 + 1 ) as int ) ) ;
+assert ( block @ . take ( w ) =~= block @ ) ;
+assert ( ( i + 8 ) / 8 == i / 8 + 1 ) ;
+assert ( hdr + enc_blocks ( d , w , ( i / 8 ) as nat ) + block @ =~= hdr + ( enc_blocks ( d , w , ( i / 8 ) as nat ) + block @ ) ) ;
 }
 i += BLOCK_WIDTH ;
 }
@@ -930,7 +1021,13 @@ if i < self . entries . len ( ) {
 let mut block = vx_vec_u8 ( entry_bits as usize ) ;
 let mut packer = BitPacker :: new ( & mut block ) ;
 let ghost i0 = i ;
-while i < self . entries . len ( ) invariant i0 <= i <= self . entries @ . len ( ) , self . entries @ . len ( ) - i0 < 8 , entry_bits <= 63 , packer . cap ( ) == 8 * entry_bits , packer . bitpos ( ) == ( i - i0 ) * entry_bits , previous == ( if i == 0 {
+let ghost fin = final ( packer . bytes ) @ ;
+proof {
+assert ( d . subrange ( i0 as int , i0 as int ) . len ( ) * w == 0 ) by ( nonlinear_arith ) requires d . subrange ( i0 as int , i0 as int ) . len ( ) == 0 ;
+assert ( packer . bytes @ . take ( 0 ) =~= packed ( d . subrange ( i0 as int , i0 as int ) , w ) ) ;
+}
+while i < self . entries . len ( ) invariant i0 <= i <= self . entries @ . len ( ) , self . entries @ . len ( ) - i0 < 8 , 1 <= entry_bits <= 63 , packer . cap ( ) == 8 * entry_bits , packer . bitpos ( ) == ( i - i0 ) * entry_bits , packer . byte_bit_used < 8 , d == deltas_of ( self . entries @ ) , w == entry_bits as int , final ( packer . bytes ) @ == fin ,
+/*@C12.theta.v4_payload*/ packer . holds ( d . subrange ( i0 as int , i as int ) , w ) , previous == ( if i == 0 {
 0u64 }
 else {
 self . entries @ [ i - 1 ] }
@@ -943,6 +1040,9 @@ assert ( ( i - i0 + 1 ) * entry_bits == ( i - i0 ) * entry_bits + entry_bits ) b
 let delta = self . entries [ i ] - previous ;
 previous = self . entries [ i ] ;
 packer . pack_value ( delta , entry_bits ) ;
+proof {
+assert ( d . subrange ( i0 as int , i as int ) . push ( delta ) =~= d . subrange ( i0 as int , i + 1 ) ) ;
+}
 i += 1 ;
 }
 let bytes_used = packer . byte_used ( ) ;
@@ -953,6 +1053,16 @@ let ghost before = bytes @ ;
 bytes . write ( vx_subslice_u8 ( & block , 0 , bytes_used ) ) ;
 proof {
 assert ( ( before + block @ . subrange ( 0 , bytes_used as int ) ) . take ( hdr . len ( ) as int ) =~= before . take ( hdr . len ( ) as int ) ) ;
+assert ( d . subrange ( i0 as int , i as int ) =~= d . skip ( i0 as int ) ) ;
+assert ( block @ . subrange ( 0 , bytes_used as int ) =~= block @ . take ( bytes_used as int ) ) ;
+assert ( i0 == 8 * ( d . len ( ) / 8 ) && d . len ( ) % 8 != 0 ) ;
+assert ( bytes @ =~= hdr + enc_v4_payload ( d , w ) ) ;
+}
+}
+else {
+proof {
+assert ( i == 8 * ( d . len ( ) / 8 ) && d . len ( ) % 8 == 0 ) ;
+assert ( bytes @ =~= hdr + enc_v4_payload ( d , w ) ) ;
 }
 }
 proof {
@@ -966,7 +1076,8 @@ bytes . into_bytes ( ) }
 
 
 
-    fn compute_entry_bits ( entries : & [ u64 ] ) -> ( r : u8 ) requires sorted_strict ( entries @ ) , forall | i : int | 0 <= i < entries @ . len ( ) ==> 0 < # [ trigger ] entries @ [ i ] < 0x8000_0000_0000_0000 , ensures r <= 63 , entries @ . len ( ) > 0 ==> 1 <= r , {
+    fn compute_entry_bits ( entries : & [ u64 ] ) -> ( r : u8 ) requires sorted_strict ( entries @ ) , forall | i : int | 0 <= i < entries @ . len ( ) ==> 0 < # [ trigger ] entries @ [ i ] < 0x8000_0000_0000_0000 , ensures r <= 63 , entries @ . len ( ) > 0 ==> 1 <= r ,
+/*@C12.theta.v4_entry_bits*/ fits ( deltas_of ( entries @ ) , r as int ) , {
 let mut previous = 0u64 ;
 let mut ored = 0u64 ;
 let mut vx_i1 = 0 ;
@@ -974,7 +1085,7 @@ while vx_i1 < entries . len ( ) invariant vx_i1 <= entries @ . len ( ) , previou
 0u64 }
 else {
 entries @ [ vx_i1 - 1 ] }
-) , ored < 0x8000_0000_0000_0000 , vx_i1 > 0 ==> ored >= 1 , sorted_strict ( entries @ ) , forall | i : int | 0 <= i < entries @ . len ( ) ==> 0 < # [ trigger ] entries @ [ i ] < 0x8000_0000_0000_0000 , decreases entries @ . len ( ) - vx_i1 {
+) , ored < 0x8000_0000_0000_0000 , vx_i1 > 0 ==> ored >= 1 , sorted_strict ( entries @ ) , forall | j : int | 0 <= j < vx_i1 ==> ( # [ trigger ] delta_at ( entries @ , j ) ) | ored == ored , forall | i : int | 0 <= i < entries @ . len ( ) ==> 0 < # [ trigger ] entries @ [ i ] < 0x8000_0000_0000_0000 , decreases entries @ . len ( ) - vx_i1 {
 let entry = entries [ vx_i1 ] ;
 proof {
 reveal ( sorted_strict ) ;
@@ -982,6 +1093,12 @@ reveal ( sorted_strict ) ;
 let delta = entry - previous ;
 proof {
 assert ( ored < 0x8000_0000_0000_0000u64 && delta < 0x8000_0000_0000_0000u64 ==> ( ored | delta ) < 0x8000_0000_0000_0000u64 && ( ored | delta ) >= delta ) by ( bit_vector ) ;
+assert ( delta == delta_at ( entries @ , vx_i1 as int ) ) ;
+assert ( delta | ( ored | delta ) == ( ored | delta ) ) by ( bit_vector ) ;
+assert forall | j : int | 0 <= j < vx_i1 implies ( # [ trigger ] delta_at ( entries @ , j ) ) | ( ored | delta ) == ( ored | delta ) by {
+let x = delta_at ( entries @ , j ) ;
+assert ( x | ored == ored ==> x | ( ored | delta ) == ( ored | delta ) ) by ( bit_vector ) ;
+}
 }
 ored |= delta ;
 previous = entry ;
@@ -990,6 +1107,12 @@ vx_i1 += 1 ;
 proof {
 vstd :: std_specs :: bits :: axiom_u64_leading_zeros ( ored ) ;
 assert ( ored < 0x8000_0000_0000_0000u64 ==> ( ored >> 63u64 ) & 1u64 == 0u64 ) by ( bit_vector ) ;
+lemma_lz_fits ( ored ) ;
+let rr = ( 64 - vstd :: std_specs :: bits :: u64_leading_zeros ( ored ) ) as u64 ;
+assert forall | j : int | 0 <= j < entries @ . len ( ) implies # [ trigger ] deltas_of ( entries @ ) [ j ] >> rr == 0 by {
+let x = delta_at ( entries @ , j ) ;
+assert ( x | ored == ored && ored >> rr == 0 ==> x >> rr == 0 ) by ( bit_vector ) ;
+}
 }
 ( 64 - ored . leading_zeros ( ) ) as u8 }
 
@@ -1219,12 +1342,23 @@ entries , theta , seed_hash , ordered , empty , }
 
 
     #[verifier::spinoff_prover]   // fresh z3 per function: the shared prover slows down badly after the expected failures
+    // the three loops with an early exit are not isolated: they need p = the cursor handed in (a by-value `mut` parameter has no old())
     fn deserialize_v4 ( pre_longs : u8 , mut cursor : SketchSlice < '_ > , expected_seed : u64 , ) -> ( r : Result < Self , Error > ) ensures
+/*@C13.theta.v4_payload*/ decode_spec_v4 ( cursor . rem ( ) , pre_longs , seed_hash_of ( expected_seed ) ) matches Some ( x ) ==> ( r matches Ok ( s ) && s . img ( ) == x ) ,
 /*@C14.theta_v4.total*/ r matches Ok ( s ) ==> all_valid ( s . entries @ , s . theta ) , {
+let ghost p = cursor . rem ( ) ;
+let ghost spec = decode_spec_v4 ( p , pre_longs , seed_hash_of ( expected_seed ) ) ;
+proof {
+lemma_dec_v4_some ( p , pre_longs , seed_hash_of ( expected_seed ) ) ;
+}
 let entry_bits = cursor . read_u8 ( ) . vx_io ( "entry_bits" ) ? ;
 let num_entries_bytes = cursor . read_u8 ( ) . vx_io ( "num_entries" ) ? ;
 let flags = cursor . read_u8 ( ) . vx_io ( "flags" ) ? ;
 let seed_hash = cursor . read_u16_le ( ) . vx_io ( "seed_hash" ) ? ;
+proof {
+assert ( p . skip ( 1 ) . skip ( 1 ) . skip ( 1 ) . take ( 2 ) =~= p . subrange ( 3 , 5 ) ) ;
+assert ( p . skip ( 1 ) . skip ( 1 ) . skip ( 1 ) . skip ( 2 ) =~= p . skip ( 5 ) ) ;
+}
 let empty = ( flags & FLAGS_IS_EMPTY ) != 0 ;
 if ! empty {
 let expected_seed_hash = compute_seed_hash ( expected_seed ) ;
@@ -1237,55 +1371,142 @@ cursor . read_u64_le ( ) . vx_io ( "theta_long" ) ? }
 else {
 MAX_THETA }
 ;
+let ghost off : int = if pre_longs > 1 { 13 } else { 5 } ;
+proof {
+if pre_longs > 1 {
+assert ( p . skip ( 5 ) . take ( 8 ) =~= p . subrange ( 5 , 13 ) ) ;
+assert ( p . skip ( 5 ) . skip ( 8 ) =~= p . skip ( 13 ) ) ;
+}
+}
 let mut num_entries = 0usize ;
-for i in 0 .. num_entries_bytes {
+# [ verifier :: loop_isolation ( false ) ] for i in 0 .. num_entries_bytes invariant p . len ( ) >= off + i , cursor . rem ( ) == p . skip ( off + i ) ,
+/*@C13.theta.v4_payload*/ num_entries == le_count_val ( p , off , i as nat ) , {
 let entry_count_byte = cursor . read_u8 ( ) . vx_io ( "num_entries_byte" ) ? ;
 assert (
 /*@C14.theta_v4.shift*/ i < 8 ) ;
 assert ( i < 8 ==> ( ( i as usize ) << 3 ) < 64 ) by ( bit_vector ) ;
+proof {
+assert ( i < 8 ==> ( ( i as usize ) << 3 ) == ( 8 * i ) as usize ) by ( bit_vector ) ;
+assert ( p . skip ( off + i ) . skip ( 1 ) =~= p . skip ( off + i + 1 ) ) ;
+}
 num_entries |= ( entry_count_byte as usize ) << ( ( i as usize ) << 3 ) ;
 }
+let ghost q = p . skip ( off + num_entries_bytes ) ;
+let ghost w = entry_bits as int ;
+let ghost okw = 1 <= entry_bits <= 63 ;
+let ghost d = dec_v4_deltas ( q , w , num_entries as nat ) ;
 let mut i = 0usize ;
 let mut entries = vx_zeroed_u64 ( num_entries , Ghost ( cursor . rem ( ) . len ( ) as int ) ) ;
-while i + BLOCK_WIDTH <= num_entries invariant entries @ . len ( ) == num_entries , i <= num_entries , 8 * num_entries <= 0x7fff_ffff_ffff_ffff , decreases num_entries - i {
+proof {
+assert ( w * 0 == 0 ) ;
+assert ( q . skip ( 0 ) =~= q ) ;
+}
+# [ verifier :: loop_isolation ( false ) ] while i + BLOCK_WIDTH <= num_entries invariant entries @ . len ( ) == num_entries , i <= num_entries , i % 8 == 0 , 8 * num_entries <= 0x7fff_ffff_ffff_ffff , w == entry_bits as int , okw == ( 1 <= entry_bits <= 63 ) , d == dec_v4_deltas ( q , w , num_entries as nat ) , spec == decode_spec_v4 ( p , pre_longs , seed_hash_of ( expected_seed ) ) , spec is Some ==> okw && q == p . skip ( off + num_entries_bytes ) && p . len ( ) >= off + num_entries_bytes && q . len ( ) >= v4_payload_len ( num_entries as int , w ) && num_entries == le_count_val ( p , off , num_entries_bytes as nat ) && off == ( if pre_longs == 2 { 13int } else { 5int } ) && p . len ( ) >= 5 && entry_bits == p [ 0 ] && num_entries_bytes == p [ 1 ] , w * ( i / 8 ) <= q . len ( ) , cursor . rem ( ) == q . skip ( w * ( i / 8 ) ) ,
+/*@C13.theta.v4_payload*/ okw ==> forall | j : int | 0 <= j < i ==> entries @ [ j ] == # [ trigger ] d [ j ] , decreases num_entries - i {
+proof {
+let b = ( i / 8 ) as int ;
+let nb = ( num_entries / 8 ) as int ;
+assert ( b + 1 <= nb ) ;
+assert ( w * b + w == w * ( b + 1 ) ) by ( nonlinear_arith ) ;
+assert ( w * ( b + 1 ) <= w * nb ) by ( nonlinear_arith ) requires b + 1 <= nb , 0 <= w ;
+assert ( packed_len ( ( num_entries % 8 ) as int , w ) >= 0 ) by ( nonlinear_arith ) requires 0 <= w , 0 <= num_entries % 8 , packed_len ( ( num_entries % 8 ) as int , w ) == ( ( num_entries % 8 ) * w + 7 ) / 8 ;
+assert ( ( i + 8 ) / 8 == b + 1 ) ;
+}
 let mut block = vx_zeroed_u8 ( entry_bits as usize , Ghost ( cursor . rem ( ) . len ( ) as int ) ) ;
 cursor . read_exact ( & mut block ) . vx_io ( "delta_block" ) ? ;
+let ghost before = entries @ ;
 vx_unpack_block_at ( & mut entries , i , i + BLOCK_WIDTH , & block , entry_bits ) ;
+proof {
+let b = ( i / 8 ) as int ;
+assert ( block @ =~= q . subrange ( w * b , w * b + w ) ) ;
+assert ( block @ . take ( w ) =~= block @ ) ;
+assert ( q . skip ( w * b ) . skip ( w ) =~= q . skip ( w * ( b + 1 ) ) ) ;
+if okw {
+assert forall | j : int | 0 <= j < i + 8 implies entries @ [ j ] == # [ trigger ] d [ j ] by {
+if j >= i {
+assert ( entries @ [ j ] == entries @ . subrange ( i as int , i + 8 ) [ j - i ] ) ;
+assert ( j / 8 == b && j % 8 == j - i && j < 8 * ( num_entries / 8 ) ) ;
+assert ( d [ j ] == dec_v4_delta ( q , w , num_entries as int , j ) ) ;
+}
+else {
+assert ( entries @ [ j ] == before [ j ] ) ;
+}
+}
+}
+}
 i += BLOCK_WIDTH ;
 }
 if i < num_entries {
 let rem = num_entries - i ;
 proof {
 assert ( rem * ( entry_bits as usize ) <= 7 * 255 ) by ( nonlinear_arith ) requires rem <= 7 , entry_bits <= 255 ;
+assert ( i == 8 * ( num_entries / 8 ) && rem == num_entries % 8 ) ;
+assert ( rem * w == rem * ( entry_bits as usize ) ) ;
 }
 let bytes_needed = ( rem * entry_bits as usize ) . div_ceil ( 8 ) ;
 let mut tail = vx_zeroed_u8 ( bytes_needed , Ghost ( cursor . rem ( ) . len ( ) as int ) ) ;
+proof {
+assert ( bytes_needed == packed_len ( rem as int , w ) ) ;
+}
 cursor . read_exact ( & mut tail ) . vx_io ( "delta_tail" ) ? ;
+proof {
+assert ( tail @ =~= q . subrange ( w * ( num_entries / 8 ) , v4_payload_len ( num_entries as int , w ) ) ) ;
+}
 let mut unpacker = BitUnpacker :: new ( & tail ) ;
 let mut vx_k = i ;
-while vx_k < num_entries invariant i <= vx_k <= num_entries , entries @ . len ( ) == num_entries , rem == num_entries - i , rem < 8 , unpacker . byte_bit_used < 8 , unpacker . bitpos ( ) == ( vx_k - i ) * entry_bits , unpacker . bytes @ . len ( ) == bytes_needed , 8 * bytes_needed >= rem * entry_bits , decreases num_entries - vx_k {
+while vx_k < num_entries invariant i <= vx_k <= num_entries , entries @ . len ( ) == num_entries , rem == num_entries - i , rem < 8 , i == 8 * ( num_entries / 8 ) , rem == num_entries % 8 , unpacker . byte_bit_used < 8 , unpacker . bitpos ( ) == ( vx_k - i ) * entry_bits , unpacker . bytes @ . len ( ) == bytes_needed , 8 * bytes_needed >= rem * entry_bits , w == entry_bits as int , okw == ( 1 <= entry_bits <= 63 ) , d == dec_v4_deltas ( q , w , num_entries as nat ) , unpacker . bytes @ == q . subrange ( w * ( num_entries / 8 ) , v4_payload_len ( num_entries as int , w ) ) ,
+/*@C13.theta.v4_payload*/ okw ==> forall | j : int | 0 <= j < vx_k ==> entries @ [ j ] == # [ trigger ] d [ j ] , decreases num_entries - vx_k {
 proof {
 lemma_mul_le ( vx_k - i + 1 , rem as int , entry_bits as int ) ;
 assert ( ( vx_k - i + 1 ) * entry_bits == ( vx_k - i ) * entry_bits + entry_bits ) by ( nonlinear_arith ) ;
 }
+let ghost before = entries @ ;
 entries [ vx_k ] = unpacker . unpack_value ( entry_bits ) ;
+proof {
+if okw {
+let t = vx_k - i ;
+assert ( d [ vx_k as int ] == dec_v4_delta ( q , w , num_entries as int , vx_k as int ) ) ;
+assert ( unpacked ( unpacker . bytes @ , w , rem as nat ) [ t ] == stream_val ( unpacker . bytes @ , t * w , w ) ) ;
+assert forall | j : int | 0 <= j < vx_k + 1 implies entries @ [ j ] == # [ trigger ] d [ j ] by {
+if j < vx_k {
+assert ( entries @ [ j ] == before [ j ] ) ;
+}
+}
+}
+}
 vx_k += 1 ;
 }
 }
+proof {
+assert ( i + 8 > num_entries && i % 8 == 0 ==> i == 8 * ( num_entries / 8 ) ) ;
+}
 let mut previous = 0 ;
 let mut vx_i2 = 0 ;
-while vx_i2 < entries . len ( ) invariant vx_i2 <= entries @ . len ( ) , forall | j : int | 0 <= j < vx_i2 ==> valid_hash ( # [ trigger ] entries @ [ j ] , theta ) , decreases entries @ . len ( ) - vx_i2 {
+# [ verifier :: loop_isolation ( false ) ] while vx_i2 < entries . len ( ) invariant vx_i2 <= entries @ . len ( ) , entries @ . len ( ) == num_entries , forall | j : int | 0 <= j < vx_i2 ==> valid_hash ( # [ trigger ] entries @ [ j ] , theta ) , d == dec_v4_deltas ( q , w , num_entries as nat ) , spec == decode_spec_v4 ( p , pre_longs , seed_hash_of ( expected_seed ) ) , spec is Some ==> okw && psum ( d , num_entries as nat ) <= u64 :: MAX && all_valid ( undelta ( d ) , theta ) ,
+/*@C13.theta.v4_payload*/ okw ==> previous == psum ( d , vx_i2 as nat ) && ( forall | j : int | vx_i2 <= j < num_entries ==> entries @ [ j ] == # [ trigger ] d [ j ] ) && ( forall | j : int | 0 <= j < vx_i2 ==> # [ trigger ] entries @ [ j ] == psum ( d , ( j + 1 ) as nat ) ) , decreases entries @ . len ( ) - vx_i2 {
+let ghost before = entries @ ;
 let e = & mut entries [ vx_i2 ] ;
 assert (
 /*@C14.theta_v4.delta_overflow*/ * e + previous <= u64 :: MAX ) ;
 * e += previous ;
 previous = * e ;
+proof {
+if okw {
+assert ( previous == psum ( d , ( vx_i2 + 1 ) as nat ) ) ;
+assert ( undelta ( d ) [ vx_i2 as int ] == previous ) ;
+}
+}
 if * e == 0 || * e >= theta {
 return Err ( Error :: deserial ( "corrupted: invalid retained hash value" ) ) ;
 }
 vx_i2 += 1 ;
 }
 let ordered = ( flags & FLAGS_IS_ORDERED ) != 0 ;
+proof {
+if spec is Some {
+assert ( entries @ =~= undelta ( d ) ) ;
+}
+}
 Ok ( Self {
 entries , theta , seed_hash , ordered , empty , }
 ) }
